@@ -29,6 +29,11 @@ fn minmax(ps: &[Uint128]) -> (SInt, SInt) {
 }
 
 fn vamm_twap(blocks: Vec<Block>, intervals: Vec<u64>, tail: u64) -> impl Fn() {
+    vamm_twap_ns(blocks, intervals, tail, vec![])
+}
+
+/// `nanos[i]`: sub-second part added at block i (the last entry applies to the tail block)
+fn vamm_twap_ns(blocks: Vec<Block>, intervals: Vec<u64>, tail: u64, nanos: Vec<u64>) -> impl Fn() {
     move || {
         let mut cfg = Cfg::base(false, 9);
         cfg.vamm_engine_is_owner = true;
@@ -39,8 +44,11 @@ fn vamm_twap(blocks: Vec<Block>, intervals: Vec<u64>, tail: u64) -> impl Fn() {
         let mut segs: Vec<(u64, Uint128)> = vec![(w.now(), w.spot_price(0).unwrap())];
         let mut blocks_with_trades = 0u64;
         let mut n = 0;
-        for (dt, trades) in blocks.iter() {
-            w.next_block(*dt);
+        for (bi, (dt, trades)) in blocks.iter().enumerate() {
+            match nanos.get(bi) {
+                Some(ns) => w.next_block_ns(*dt, *ns),
+                None => w.next_block(*dt),
+            }
             let mut any = false;
             for (k, dir, units, sym) in trades.iter() {
                 n += 1;
@@ -59,7 +67,16 @@ fn vamm_twap(blocks: Vec<Block>, intervals: Vec<u64>, tail: u64) -> impl Fn() {
             }
         }
         if tail > 0 {
-            w.next_block(tail);
+            match nanos.last() {
+                // a whole-second step whose sub-second part is smaller than the previous block's
+                Some(ns) if !nanos.is_empty() => {
+                    w.next_block(tail - 1);
+                    w.advance_time(0);
+                    let back = *ns;
+                    w.app.update_block(|b| b.time = b.time.plus_nanos(1_000_000_000 - back));
+                }
+                _ => w.next_block(tail),
+            }
         }
         let now = w.now();
         // one snapshot per block that traded (+ the initial one)
@@ -181,7 +198,13 @@ pub fn scenarios(seed: u64) -> Vec<Scenario> {
     ];
     for (name, blocks, ivs, tail) in scheds {
         let tier = if name == "six-blocks" { Tier::Thorough } else { Tier::Quick };
-        v.push(sc("C18", tier, &format!("c18.vamm.{}", name), dv, 400, 120, vamm_twap(blocks, ivs, tail)));
+        v.push(sc("C18", tier, &format!("c18.vamm.{}", name), dv, 400, 120, vamm_twap(blocks.clone(), ivs.clone(), tail)));
+        // the same schedule with block times that are not aligned to whole seconds (the query
+        // block's sub-second part smaller than that of the last trading block)
+        if name == "two-blocks" || name == "unchanged" || name == "long-gaps" {
+            let ns: Vec<u64> = (0..=blocks.len()).map(|i| [900_000_000u64, 300_000_000, 700_000_000, 600_000_000][i % 4]).collect();
+            v.push(sc("C18", Tier::Quick, &format!("c18.vamm.{}.unaligned", name), "as above with sub-second block-time offsets", 400, 120, vamm_twap_ns(blocks, ivs, tail.max(2), ns)));
+        }
     }
     let df = "the repository's price feed: symbolic prices submitted at enumerated non-decreasing timestamps <= now; TWAP within the submitted prices overlapping the window; latest / n-rounds-back return exactly the submitted (price, timestamp, round)";
     let feeds: Vec<(&str, Vec<u64>, Vec<u64>, u64)> = vec![
